@@ -15,6 +15,14 @@ theorem C14_canDo_spec (actionRoles tokenRoles : List Char) :
 theorem C14_canDo_disabled (a : Option (List Char)) (t : List Char) : canDo false a t = true := by
   simp [canDo]
 
+/-- **C14 (closed action)** — an action configured with no role at all admits nobody, whoever asks -/
+theorem C14_canDo_closed (tokenRoles : List Char) : canDo true (some []) tokenRoles = false := by
+  simp [canDo]
+
+/-- **C14 (no roles held)** — a token holding no role at all is never allowed a configured action -/
+theorem C14_canDo_no_roles (actionRoles : List Char) : canDo true (some actionRoles) [] = false := by
+  simp [canDo]
+
 /-- role strings read back as the set of their lower-cased characters, exactly as last set
     (`set_auth_roles` stores the string, `get_auth_roles` returns `set(roles.lower())`) -/
 def rolesRead (stored : String) : List Char := (stored.toLower.toList).eraseDups
